@@ -207,6 +207,36 @@ def main(run):
                           "correspondence case: %s\nmodel: %s\nimpl: %s\n" % (lines[i], om[i], oc[i]),
                           tag="tie%d" % k, no_input=True)
 
+    # whole exchanges through the client API (B.1.2 recovery included), with replays and
+    # tampered copies of everything the client sent
+    elines = list(G.rpe_cases(quick))
+    eo, ecr = run_c(drv, elines)
+    conv = [G.parse_rpe(ln, o) for ln, o in zip(elines, eo)]
+    mlines = [c[0] for c in conv if c]
+    mo2, _ = vlib.run_lines_robust(model, mlines)
+    mres = iter(mo2)
+    nbad_e = 0
+    for ln, o, c in zip(elines, eo, conv):
+        run.count(ln, c is not None and len(c[1]) >= 3)
+        run.hist("kind", "exchange")
+        fails = G.oracle_rpe(ln, o)
+        mline = next(mres) if c else None
+        if fails:
+            nbad_e += 1
+            if nbad_e <= 2:
+                run.violation("property fails on the implementation (client/server exchange): " + "; ".join(fails[:2]),
+                              "case: %s\nimpl: %s\n" % (ln, o), tag="exch%d" % nbad_e)
+        elif c and mline != " ".join(c[1]):
+            nbad_e += 1
+            if nbad_e <= 2:
+                run.violation("client/server exchange: server state differs from the model (repaired behaviour)",
+                              "correspondence case: %s\nimpl: %s\nas history: %s\nmodel: %s\n" % (ln, o, c[0], mline),
+                              tag="exchtie%d" % nbad_e, no_input=True)
+    run.cov["exchange_cases"] = len(elines)
+    run.cov["exchange_failures"] = nbad_e
+    if elines:
+        run.sample({"case": elines[min(len(elines) - 1, 7)], "impl": eo[min(len(eo) - 1, 7)][:300]})
+
     # sanitizer variant (thorough): undefined shifts, overreads in the real code
     if "asan" in drivers:
         sub = [ln for ln, k in zip(lines, kinds) if k in ("corpus", "unit-random", "request-random")][:60000]
